@@ -143,8 +143,8 @@ def check (f ch sr : Int) : Bool :=
     if s = PCM_S8 ∨ s = PCM_16 then true
     else if s = PCM_24 ∨ s = PCM_32 then true
     else if s = ULAW ∨ s = ALAW then true
-    else if s = ALAC_16 ∨ s = ALAC_20 then true
-    else if s = ALAC_24 ∨ s = ALAC_32 then true
+    else if (s = ALAC_16 ∨ s = ALAC_20) ∧ ch ≤ 8 then true     -- e9742d9: the ALAC encoder state has room for 8 channels
+    else if (s = ALAC_24 ∨ s = ALAC_32) ∧ ch ≤ 8 then true
     else if s = FLOAT ∨ s = DOUBLE then true
     else false
   else if container f = RAW then
@@ -340,6 +340,9 @@ def nmsInit (s ch : Int) : Init :=
 def gsm610Init (c : Int) : Init :=
   if c = WAV ∨ c = WAVEX ∨ c = W64 ∨ c = AIFF ∨ c = RAW then .good else .fail .internal
 
+/-- `alac_init` → `alac_writer_init` (0aa127c): SFE_CHANNEL_COUNT outside 1 … ALAC_MAX_CHANNEL_COUNT -/
+def alacInit (ch : Int) : Init := if ch < 1 ∨ ch > 8 then .fail .channelCount else .good
+
 def dwvwInit (bits : Int) : Init := if bits > 24 then .fail .dwvwBadBitwidth else .good
 
 def voxInit (ch : Int) : Init := if ch ≠ 1 then .fail .channelCount else .good
@@ -472,7 +475,7 @@ def openCaf (f ch sr : Int) : OpenRes :=
     else if s = ULAW ∨ s = ALAW then fin .good
     else if s = FLOAT then fin (float32Init e ch)
     else if s = DOUBLE then fin (double64Init e ch)
-    else if isAlac s then fin .good     -- alac_init: any channel count is taken (ALAC_MAX_CHANNEL_COUNT is not consulted)
+    else if isAlac s then fin (alacInit ch)
     else early .unsupportedEncoding f ch sr
 
 def openRaw (f ch sr : Int) : OpenRes :=
@@ -710,12 +713,9 @@ def writeRet (f ch sr n : Int) : Int :=
   else if container f = RAW ∧ codec f = VOX_ADPCM then n + n % 2
   else n
 
-/-- the ALAC encoder state has room for 8 channels; with more, `alac_encoder_init` runs over the
-    following fields of ALAC_PRIVATE (the temp-file name among them) -/
-def alacOverrun (f ch : Int) : Bool := container f = CAF ∧ isAlac (codec f) ∧ ch > 8
-
-/-- files left in the temp directory after sf_close -/
-def tmpLeft (f ch : Int) : Int := if alacOverrun f ch then 1 else 0
+/-- files left in the temp directory after sf_close (the ALAC encoder spools there and removes its file;
+    the > 8 channel overrun that used to lose the file name is refused at open since 0aa127c / e9742d9) -/
+def tmpLeft (_f _ch : Int) : Int := 0
 
 /-- IRCAM stores the rate as a float32 and reads it back into an `int`: 2^31 does not fit -/
 def ircamRateLost (f sr : Int) : Bool := container f = IRCAM ∧ sr ≥ 2147483584
@@ -736,7 +736,7 @@ def reopenEndian (f : Int) (e : Int) : Int :=
 
 /-- `SF_INFO.format` after re-opening the produced bytes for reading (`none`: they do not open) -/
 def reopen (f ch sr : Int) : Option Int :=
-  if alacOverrun f ch ∨ ircamRateLost f sr then none
+  if ircamRateLost f sr then none
   else some (container f + codec f + reopenEndian f (containerOpen f ch sr).endian)
 
 /-- same container and same encoding -/
